@@ -15,7 +15,9 @@ var TailKinds = []string{"binop-exprstmt", "unary-exprstmt", "store-local-k", "s
 	"selstore-global-k", "store-global-k", "call-k-args", "array-k-elems", "map-k-elems", "const-k", "closure-k-free",
 	"define-local-k", "load-local-k", "incdec-local-k", "if-tail", "loop-tail", "forin-tail", "return-in-branch",
 	// every compound assignment operator on every kind of target
-	"compound-global", "compound-local", "compound-free", "compound-sel", "compound-index", "compound-main"}
+	"compound-global", "compound-local", "compound-free", "compound-sel", "compound-index", "compound-main",
+	// the operand of immutable(...) / export ends in an instruction whose last operand byte takes every small value
+	"immutable-array-k", "immutable-local-k", "immutable-global-k", "export-array-k"}
 
 // TailMaxK is the largest operand value driven.
 const TailMaxK = 40
@@ -182,6 +184,25 @@ func Tails(kind string, k int) *Program {
 				&For{Init: Def("i", N("0")), Cond: B("<", I("i"), N("3")), Post: &IncDec{X: I("i"), Op: "++"},
 					Body: []Stmt{&Assign{LHS: &Sel{X: I("m"), Name: "v"}, Op: op, RHS: N("2")}}})
 		}
+	case "immutable-array-k", "export-array-k":
+		var es []Expr
+		for i := 0; i < k; i++ {
+			es = append(es, N("1"))
+		}
+		if kind == "export-array-k" {
+			return &Program{Modules: map[string][]Stmt{"m": {&Export{X: &ArrayLit{Elems: es}}}},
+				Main: []Stmt{Def("out", &Import{Name: "m"}), Def("kind", C(I("type_name"), I("out")))}}
+		}
+		body = append(body, &Return{X: &Immutable{X: &ArrayLit{Elems: es}}})
+	case "immutable-local-k":
+		locals(k)
+		body = append(body, Def(name("l", k), &ArrayLit{Elems: []Expr{N("1")}}), &Return{X: &Immutable{X: I(name("l", k))}})
+	case "immutable-global-k":
+		for i := 0; i < k; i++ {
+			pre = append(pre, Def(name("g", i), N(fmt.Sprint(i))))
+		}
+		pre = append(pre, Def(name("g", k), &ArrayLit{Elems: []Expr{N("1")}}))
+		body = append(body, &Return{X: &Immutable{X: I(name("g", k))}})
 	case "return-in-branch":
 		body = append(body, Def("a", N("1")))
 		switch k % 4 {
